@@ -71,7 +71,8 @@ def check_case(case):
         import math
 
         fdiag = [v for v in diag if math.isfinite(v)]
-        if off and fdiag and min(off) <= max(fdiag):
+        # self-distances are zero only up to rounding (cosine: -2e-16): every other distance must exceed their magnitude
+        if off and fdiag and min(off) <= max(abs(v) for v in fdiag):
             return Outcome.discard("premise:self_distance_not_below_all_others")
         s = r.state
         for i in range(n):
